@@ -190,9 +190,16 @@ class Recorder:
             text = text.replace(s, '<DIR>')
         self.lines.append(f'{self.event_index} {self.event_kind} -> {text}')
 
+    AMBIENT = ('caller_mutates_result', 'caller_reuses_argument')
+
     def fault(self, kind, n=1):
+        """Count a disturbance that actually fired.  The two caller-side disturbances fire on nearly every
+        query, so they are counted but do not by themselves make a run non-trivial."""
+        if n <= 0:
+            return
         self.faults[kind] = self.faults.get(kind, 0) + n
-        self.fault_seen = True
+        if kind not in self.AMBIENT:
+            self.fault_seen = True
 
     def probe(self, name, n=1):
         self.probes[name] = self.probes.get(name, 0) + n
